@@ -172,8 +172,19 @@ def rule_packers(repo, rule, rule4):
         else:
             rule.violation(unf.loc(sl), unf.fq, "unpack reads %s" % norm(sl), "unpack does not consume exactly bitlen() positions "
                            "starting at pos", "PackIntMod/unpack/slice")
-    if len(slices) < 2:
-        rule.violation(unf.loc(), unf.fq, "%d slices" % len(slices), "unpack does not cover secret and plain inputs", "PackIntMod/unpack/arms")
+    # every value returned is computed from such a slice (secret and plain arm alike)
+    from ..flatten import resolve_locals as _rl
+    urets = [r for r in ast.walk(unf.node) if isinstance(r, ast.Return) and r.value is not None]
+    slice_txt = {norm(sl) for sl in slices}
+    unsliced = [r for r in urets if not any(t in norm(_rl(unf.node, r.value)) for t in slice_txt)]
+    if not slices or not urets:
+        rule.violation(unf.loc(), unf.fq, "%d slices, %d returns" % (len(slices), len(urets)), "unpack does not read a slice of the "
+                       "bit list", "PackIntMod/unpack/arms")
+    elif unsliced:
+        rule.violation(unf.loc(unsliced[0]), unf.fq, "returns %s" % norm(unsliced[0].value)[:80], "unpack returns a value that is not "
+                       "computed from bits[pos:pos+bitlen()]", "PackIntMod/unpack/arms")
+    else:
+        rule.ok(unf.loc(), unf.fq, "%d return(s), each computed from bits[pos:pos+bitlen()]" % len(urets))
     # plain recomposition weights
     for n in ast.walk(unf.node):
         if isinstance(n, (ast.ListComp, ast.GeneratorExp)) and norm(n.generators[0].iter).startswith("enumerate("):
@@ -221,7 +232,7 @@ def rule_packers(repo, rule, rule4):
     else:
         rule.violation(blf.loc(), blf.fq, norm(b0[0]) if b0 else "", "PackList.bitlen is not the sum of its children's lengths", "PackList/bitlen")
     p0 = ret_exprs(pkf)
-    t = norm(p0[0]) if p0 else ""
+    t = norm(_rl(pkf.node, p0[0])) if p0 else ""
     if "zip(self.lst, %s)" % pkf.params[1] in t and ".pack(" in t and ("reduce" in t or "sum(" in t or "chain" in t):
         rule.ok(pkf.loc(), pkf.fq, "pack = concatenation of child.pack(v) over zip(self.lst, val)")
     else:
@@ -265,7 +276,7 @@ def rule_packers(repo, rule, rule4):
     else:
         rule.violation(blf.loc(), blf.fq, norm(b0[0]) if b0 else "", "PackRepeat.bitlen is not times * child length", "PackRepeat/bitlen")
     p0 = ret_exprs(pkf)
-    t = norm(p0[0]) if p0 else ""
+    t = norm(_rl(pkf.node, p0[0])) if p0 else ""
     if "self.packer.pack" in t and pkf.params[1] in t and ("reduce" in t or "sum(" in t or "chain" in t):
         rule.ok(pkf.loc(), pkf.fq, "pack = concatenation of child.pack over the values")
     else:
@@ -312,3 +323,5 @@ def check(repo, rep, tier):
     r3 = rep.rule("R-C16-3", "packer length algebra", floor=10)
     r4 = rep.rule("R-C16-4", "packer range checks", floor=2)
     rule_packers(repo, r3, r4)
+    from .c03 import rule_pack_unpack
+    rule_pack_unpack(repo, r4)
